@@ -30,10 +30,13 @@ import (
 	"encoding/base64"
 	"encoding/binary"
 	"fmt"
+	"regexp"
+	"runtime"
 	"sort"
 	"strconv"
 	"strings"
 	"sync"
+	"time"
 
 	"golang.org/x/mod/sumdb"
 	"golang.org/x/mod/sumdb/tlog"
@@ -602,7 +605,18 @@ type SumScenario struct {
 	Steps   []SumStep     `json:"steps"`
 	Faults  []SumFault    `json:"faults"`
 	Interf  []SumInterf   `json:"interf"`
+	Par     *SumPar       `json:"par,omitempty"`
 	Note    string        `json:"note,omitempty"`
+}
+
+// SumPar makes steps Step and Step+1 overlap: step Step is started in its own goroutine and
+// parked when it issues its first ReadRemote (Kind "rr") or ReadCache (Kind "rc") of Path;
+// step Step+1 then runs to completion, after which step Step is released.  (Which lookup an
+// operation belongs to is found from the goroutine that issued it or that created its goroutine.)
+type SumPar struct {
+	Step int    `json:"step"`
+	Kind string `json:"kind"`
+	Path string `json:"path"`
 }
 
 // Clone copies the scenario (slices are copied).
@@ -666,11 +680,79 @@ type sumOps struct {
 	nwcfg  int
 	config map[string][]byte
 	cache  map[string][]byte
+
+	// overlapping lookups (SumPar)
+	byGo     map[int64]int // lookup goroutine -> step
+	parked   bool
+	parkedCh chan struct{}
+	release  chan struct{}
+}
+
+var goidRE = regexp.MustCompile(`^goroutine (\d+) `)
+var parentRE = regexp.MustCompile(`(?s)created by .* in goroutine (\d+)\n`)
+
+// callerStep finds the step whose Lookup issued the current ClientOps call: the call runs
+// either on the lookup's goroutine or on a goroutine the lookup created (ReadTiles).
+func (o *sumOps) callerStep() int {
+	if len(o.byGo) == 0 {
+		return o.step
+	}
+	buf := make([]byte, 16384)
+	buf = buf[:runtime.Stack(buf, false)]
+	if m := goidRE.FindSubmatch(buf); m != nil {
+		id, _ := strconv.ParseInt(string(m[1]), 10, 64)
+		if st, ok := o.byGo[id]; ok {
+			return st
+		}
+	}
+	if m := parentRE.FindSubmatch(buf); m != nil {
+		id, _ := strconv.ParseInt(string(m[1]), 10, 64)
+		if st, ok := o.byGo[id]; ok {
+			return st
+		}
+	}
+	return o.step
+}
+
+func sumGoid() int64 {
+	buf := make([]byte, 64)
+	buf = buf[:runtime.Stack(buf, false)]
+	if m := goidRE.FindSubmatch(buf); m != nil {
+		id, _ := strconv.ParseInt(string(m[1]), 10, 64)
+		return id
+	}
+	return -1
+}
+
+// maybePark parks the calling operation if it is the one the scenario names.
+func (o *sumOps) maybePark(kind, path string) {
+	p := o.sc.Par
+	if p == nil {
+		return
+	}
+	o.mu.Lock()
+	hit := !o.parked && p.Kind == kind && p.Path == path && o.callerStep() == p.Step && o.parkedCh != nil
+	if hit {
+		o.parked = true
+		close(o.parkedCh)
+	}
+	o.mu.Unlock()
+	if hit {
+		<-o.release
+	}
 }
 
 func (o *sumOps) ev(e SumEvent) {
-	e.Step = o.step
+	e.Step = o.callerStep()
 	o.run.Events = append(o.run.Events, e)
+}
+
+func (o *sumOps) curView() SumView {
+	st := o.callerStep()
+	if st >= 0 && st < len(o.sc.Steps) {
+		return o.sc.Steps[st].View
+	}
+	return o.view
 }
 
 // honest computes the uncorrupted response for path under view v.
@@ -790,43 +872,46 @@ func sumCorrupt(kind string, p1, p2 int, data []byte) []byte {
 func (o *sumOps) serve(path string) ([]byte, bool) {
 	occ := o.occ[path]
 	o.occ[path]++
-	data, ok := o.honest(o.view, path)
+	view := o.curView()
+	step := o.callerStep()
+	data, ok := o.honest(view, path)
 	for _, f := range o.sc.Faults {
 		if f.Path != path || f.Occ != occ {
 			continue
 		}
 		switch f.Kind {
 		case "swap":
-			data, ok = o.honest(o.view, f.Other)
+			data, ok = o.honest(view, f.Other)
 		case "stale":
-			v := o.view
+			v := view
 			v.HeadN = int64(f.P1)
 			data, ok = o.honest(v, path)
 		case "side":
-			v := o.view
+			v := view
 			v.HeadSide, v.RecSide, v.TileSide, v.LowSide = f.P1, f.P1, f.P1, f.P1
 			if o.w.Logs[f.P1] != nil {
 				data, ok = o.honest(v, path)
 			}
 		case "head":
-			v := o.view
+			v := view
 			v.HeadKind = f.P1
 			data, ok = o.honest(v, path)
 		case "error":
 			data, ok = nil, false
 		case "junktail":
-			data, ok = o.junkTail(o.view, path, f.P1)
+			data, ok = o.junkTail(view, path, f.P1)
 		default:
 			if ok {
 				data = sumCorrupt(f.Kind, f.P1, f.P2, data)
 			}
 		}
 	}
-	o.run.Served = append(o.run.Served, SumServed{Step: o.step, Path: path, Occ: occ, Data: data, Err: !ok})
+	o.run.Served = append(o.run.Served, SumServed{Step: step, Path: path, Occ: occ, Data: data, Err: !ok})
 	return data, ok
 }
 
 func (o *sumOps) ReadRemote(path string) ([]byte, error) {
+	o.maybePark("rr", path)
 	o.mu.Lock()
 	defer o.mu.Unlock()
 	data, ok := o.serve(path)
@@ -871,6 +956,7 @@ func (o *sumOps) WriteConfig(file string, old, new []byte) error {
 }
 
 func (o *sumOps) ReadCache(file string) ([]byte, error) {
+	o.maybePark("rc", file)
 	o.mu.Lock()
 	defer o.mu.Unlock()
 	data, ok := o.cache[file]
@@ -1009,17 +1095,17 @@ func RunSumScenario(sc SumScenario) *SumRun {
 	run.Config0 = copyBytesMap(ops.config)
 	run.Cache0 = copyBytesMap(ops.cache)
 	clients := map[int]*sumdb.Client{}
-	for i, st := range sc.Steps {
+	run.Results = make([]SumResult, len(sc.Steps))
+	lookup := func(i int) {
+		st := sc.Steps[i]
 		ops.mu.Lock()
-		ops.step = i
-		ops.view = st.View
-		ops.mu.Unlock()
 		c := clients[st.Client]
 		if c == nil {
 			c = sumdb.NewClient(ops)
 			c.SetTileHeight(sc.H)
 			clients[st.Client] = c
 		}
+		ops.mu.Unlock()
 		var res SumResult
 		func() {
 			defer func() {
@@ -1037,7 +1123,52 @@ func RunSumScenario(sc SumScenario) *SumRun {
 				res = SumResult{Class: "error", Err: err.Error()}
 			}
 		}()
-		run.Results = append(run.Results, res)
+		run.Results[i] = res
+	}
+	inGoroutine := func(i int) chan struct{} {
+		done := make(chan struct{})
+		go func() {
+			defer close(done)
+			ops.mu.Lock()
+			ops.byGo[sumGoid()] = i
+			ops.mu.Unlock()
+			lookup(i)
+		}()
+		return done
+	}
+	for i := 0; i < len(sc.Steps); i++ {
+		ops.mu.Lock()
+		ops.step = i
+		ops.view = sc.Steps[i].View
+		ops.mu.Unlock()
+		if sc.Par == nil || sc.Par.Step != i || i+1 >= len(sc.Steps) {
+			lookup(i)
+			continue
+		}
+		// steps i and i+1 overlap
+		ops.mu.Lock()
+		ops.byGo = map[int64]int{}
+		ops.parkedCh = make(chan struct{})
+		ops.release = make(chan struct{})
+		ops.mu.Unlock()
+		d1 := inGoroutine(i)
+		select {
+		case <-ops.parkedCh:
+			time.Sleep(2 * time.Millisecond) // let the other reads of the parked batch finish
+			<-inGoroutine(i + 1)
+			close(ops.release)
+			<-d1
+		case <-d1:
+			// the named operation never happened: run the next step after it
+			ops.mu.Lock()
+			ops.parked = true
+			ops.mu.Unlock()
+			<-inGoroutine(i + 1)
+		}
+		ops.mu.Lock()
+		ops.byGo = nil
+		ops.mu.Unlock()
+		i++
 	}
 	run.Config = ops.config
 	run.Cache = ops.cache
